@@ -239,6 +239,10 @@ class Socket(base_socket.BaseSocket):
             if p is None:
                 # connection closed by client
                 break
+            if self.closed:
+                # the session has ended, anything that the client still sends
+                # is discarded
+                break
             pkt = packet.Packet(encoded_packet=p)
             try:
                 self.receive(pkt)
